@@ -10,7 +10,7 @@ NOT_APPLICABLE = {}
 PROPERTIES = {
     "C12": {
         "modules": ["harness.c12"],
-        "explanation": "Partial claim, schedule-bounded: 2 or 3 clients (the statement quantifies over 2..16), simulated sockets instead of TCP, "
+        "explanation": "Partial claim, schedule-bounded: 2 to 4 clients (thorough: 5; the statement quantifies over 2..16), simulated sockets instead of TCP, "
                        "preemption only at the decision points (select, device exchange, socket read / write) - a race that needs a "
                        "preemption inside other code, kernel-level socket behaviour and forking servers are outside the claim.",
         "assumptions": COMMON_ASSUMPTIONS + [
@@ -18,14 +18,19 @@ PROPERTIES = {
             "socket / connection sockets / selector (the socketserver classes themselves - serve_forever, process_request, "
             "StreamRequestHandler, ThreadingMixIn if the code uses it - are the real ones)",
             "threads started by the code under test are real threads run one at a time between decision points by the harness' scheduler; "
-            "a thread that blocks anywhere else (lock, Event) is taken as not runnable until it reaches a decision point",
+            "threading.Condition.wait / notify are rebound for the run (so Future.result, Event.wait, Queue.get are scheduler-visible waits; "
+            "time is not modelled: a wait's time-out may expire at any decision point); a thread blocked in anything else (a contended lock, "
+            "a C-level queue) is recognised by its frame not moving for 50 ms and is not runnable until it reaches a decision point",
             "all clients have connected and sent their complete request line before the server starts accepting (the 'simultaneously "
             "connected' situation); clients that connect later, partial lines and disconnecting clients are outside the bound",
             "device = sim/ledger.py with 40-byte chunk requests (authorized sign: about 30 exchanges); requests are catalogue entries, the reference "
-            "for each order is the same requests served one after the other by a fresh manager",
+            "for each order is the same requests served one after the other by one fresh manager; in that reference run every request is "
+            "additionally re-run by a manager of its own against a device replaying the recorded answers of its block (same exchanges, "
+            "same reply required: the reply is built from the request's own exchanges); two request sets use a device whose state moves "
+            "with every block of an advance and that abandons a two-block advance half way",
         ],
-        "level_text": "bounded symbolic exploration of schedules: the schedule is a vector of 10 solver variables consumed at the decision "
-                      "points of the real server code; oracle = linearisability with contiguous device blocks against the sequential runs",
+        "level_text": "bounded symbolic exploration of schedules: the schedule is a vector of 14 solver variables consumed at the decision "
+                      "points of the real server code; oracle = linearisability with contiguous device blocks against the sequential runs + per-request isolation replay",
         "level_note": "trusted: CrossHair/z3, the simulated socket layer and scheduler, the simulated device",
         "technique": "CrossHair symbolic execution of the real accept loop / request handler with solver-chosen thread schedules "
                      "(controlled scheduler over real threads), z3",
